@@ -997,13 +997,16 @@ func evalFunctionApplication(node *jparse.FunctionApplicationNode, data reflect.
 	}
 
 	// If the left hand side is not callable, call the right
-	// hand side using the left hand side as the argument.
-	if !jtypes.IsCallable(lhs) {
+	// hand side using the left hand side as the argument. A
+	// function value that a built-in has copied ($distinct,
+	// $sort, $reduce ... return the struct, not the pointer)
+	// can no longer be called either and is passed on as data.
+	f1, ok := jtypes.AsCallable(lhs)
+	if !ok {
 		return f2.Call([]reflect.Value{lhs})
 	}
 
 	// Otherwise, combine both sides into a single callable.
-	f1, _ := jtypes.AsCallable(lhs)
 
 	f := &chainCallable{
 		callables: []jtypes.Callable{
